@@ -55,7 +55,7 @@ func (c03) New() interface{} { return &C03Script{} }
 func (c03) Info() core.Info {
 	return core.Info{
 		Runs: map[string]int{"quick": 2000000, "thorough": 150000000},
-		Rule: "Each run starts from a well-formed packet built by the reference serialiser (adaptation_field_length 1..182 with payload or 183 without, any legal subset of optional fields already present, random header and payload) and applies a scripted history of <=40 adaptation-field setter calls (flags, presence toggles incl. repeats of the current value, PCR/OPCR/splice countdown values, private data / extension of length 0..190 biased to 'exactly fills' and 'one too many', value setters for absent fields, SetAdaptationField from another generated packet). After every call the 188 bytes are compared with the ISO serialisation of a logical adaptation-field model (wildcards for timestamps that became present but were never set), every method and function-style getter is checked, and a call the model says cannot be honoured must return an error and leave all 188 bytes unchanged (capacity exhaustion is the injected fault). Plus a complete sweep of all histories of length <=4 (quick) / <=5 (thorough) over a 12-letter alphabet for 9 adaptation_field_length values. Non-trivial = at least one reach probe fired.",
+		Rule: "Each run starts from a well-formed packet built by the reference serialiser (adaptation_field_length 1..182 with payload or 183 without, any legal subset of optional fields already present, random header and payload) and applies a scripted history of <=40 adaptation-field setter calls (flags, presence toggles incl. repeats of the current value, PCR/OPCR/splice countdown values, private data / extension of length 0..190 biased to 'exactly fills' and 'one too many', value setters for absent fields, SetAdaptationField from another generated packet or the packet itself, read-a-timestamp-and-write-it-back; private data is random or a run of EBP-style tag/length/identifier descriptors). After every call the 188 bytes are compared with the ISO serialisation of a logical adaptation-field model (wildcards for timestamps that became present but were never set), every method and function-style getter is checked, and a call the model says cannot be honoured must return an error and leave all 188 bytes unchanged (capacity exhaustion is the injected fault). Plus a complete sweep of all histories of length <=4 (quick) / <=5 (thorough) over a 12-letter alphabet for 9 adaptation_field_length values. Non-trivial = at least one reach probe fired.",
 		Real: []string{"(*AdaptationField) setters and getters", "(*Packet).SetAdaptationField", "(*Packet).AdaptationField", "packet/adaptationfield function-style readers", "gots.InsertPCR/ExtractPCR"},
 		Stub: []string{"caller (scripted edit history)", "reference adaptation-field serialiser"},
 		Assumptions: []string{
@@ -63,7 +63,7 @@ func (c03) Info() core.Info {
 			"bytes of a PCR/OPCR/splice countdown that became present but was never set are unconstrained until set",
 			"initial packets are ISO-valid: AFC=11 with L<=182 or AFC=10 with L=183",
 		},
-		RequiredProbes: []string{"af_full_refusal", "exact_fit", "toggle_off_nonempty_private", "toggle_off_nonempty_extension", "toggle_repeat_same_value", "shrink_private_before_extension", "copy_af_too_large", "copy_af_fits", "L_eq_183", "L_le_7", "value_for_absent_field", "grow_private", "all_fields_present", "pcr_at_33_bit_limit", "copy_from_same_packet", "value_of_256_bytes_or_more"},
+		RequiredProbes: []string{"af_full_refusal", "exact_fit", "toggle_off_nonempty_private", "toggle_off_nonempty_extension", "toggle_repeat_same_value", "shrink_private_before_extension", "copy_af_too_large", "copy_af_fits", "L_eq_183", "L_le_7", "value_for_absent_field", "grow_private", "all_fields_present", "pcr_at_33_bit_limit", "copy_from_same_packet", "value_of_256_bytes_or_more", "timestamp_written_back_over_leftover_bytes"},
 	}
 }
 
@@ -170,7 +170,7 @@ func genAF(r *core.Rand, l int) AFSpec {
 		if n < 0 {
 			n = 0
 		}
-		a.HasPriv, a.Priv = true, r.Bytes(n)
+		a.HasPriv, a.Priv = true, c03Data(r, n)
 		room -= 1 + n
 	}
 	if room >= 1 && r.Chance(1, 3) {
@@ -185,6 +185,34 @@ func genAF(r *core.Rand, l int) AFSpec {
 		room -= 1 + n
 	}
 	return a
+}
+
+// c03Data: k bytes of private data / extension: random, or what such fields really carry -
+// a run of tag/length/identifier descriptors (CableLabs EBP 0xDF "EBP0", Comcast EBP 0xA9,
+// others) with or without bytes in front, cut to the length. To the setters and getters it is
+// all opaque data.
+func c03Data(r *core.Rand, k int) core.Hex {
+	if k < 6 || r.Chance(2, 3) {
+		return r.Bytes(k)
+	}
+	var b []byte
+	for len(b) < k {
+		body := r.Bytes(r.Range(1, 12))
+		switch r.Intn(5) {
+		case 0:
+			b = append(b, r.Bytes(r.Range(1, 4))...)
+		case 1, 2:
+			b = append(b, 0xDF, byte(4+len(body)), 'E', 'B', 'P', '0')
+			b = append(b, body...)
+		case 3:
+			b = append(b, 0xA9, byte(len(body)))
+			b = append(b, body...)
+		case 4:
+			b = append(b, byte(r.Pick(0xDF, 0xA9, 0x05, 0xFF)), byte(4+len(body)), byte(r.Range('A', 'Z')), byte(r.Range('A', 'Z')), byte(r.Range('A', 'Z')), byte(r.Range('0', '9')))
+			b = append(b, body...)
+		}
+	}
+	return core.Hex(b[:k])
 }
 
 func (c03) Gen(r *core.Rand, tier string) interface{} {
@@ -209,6 +237,9 @@ func (c03) Gen(r *core.Rand, tier string) interface{} {
 			max := uint64(1)<<33*300 - 1 // base 2^33-1, extension 299: the largest value that fits in 33+9 bits
 			vals := []uint64{0, 1, 299, 300, max, max - 1, max - 298, max - 299, max - 300, (uint64(1)<<33 - 1) * 300, uint64(1) << 32 * 300, r.U64() % (max + 1), r.U64() % (max + 1), r.U64() % (max + 1)}
 			op = C03Op{Op: r.PickS("pcr", "opcr"), U: vals[r.Intn(len(vals))]}
+			if r.Chance(1, 4) {
+				op = C03Op{Op: r.PickS("pcr_echo", "opcr_echo")}
+			}
 		case 7:
 			op = C03Op{Op: "splice", U: uint64(r.Intn(256))}
 		case 8, 9, 10, 11, 12:
@@ -225,7 +256,7 @@ func (c03) Gen(r *core.Rand, tier string) interface{} {
 			if k > 600 {
 				k = 600
 			}
-			op = C03Op{Op: which, Data: r.Bytes(k)}
+			op = C03Op{Op: which, Data: c03Data(r, k)}
 		case 13:
 			if r.Chance(1, 4) {
 				op = C03Op{Op: "copy_self"} // SetAdaptationField with the packet's own field
@@ -274,6 +305,8 @@ func applyShadow(a *AFSpec, op C03Op) (bool, bool, bool) {
 		if n.HasExt != op.V {
 			n.HasExt, n.Ext = op.V, nil
 		}
+	case "pcr_echo", "opcr_echo":
+		// (generator shadow only; the executor turns these into pcr/opcr with the value read)
 	case "pcr":
 		if !n.HasPCR {
 			return false, true, false
@@ -422,6 +455,39 @@ func (c03) Exec(script interface{}, c *core.Ctx) {
 	}
 	for i, op := range s.Ops {
 		c.SetStep(i)
+		if op.Op == "pcr_echo" || op.Op == "opcr_echo" {
+			// the caller reads the timestamp and writes the same value back: afterwards the
+			// field is the ISO encoding of that value, whatever the six bytes were before
+			// (reserved bits, an extension of 300..511 left behind by a presence toggle)
+			var v uint64
+			var gerr error
+			which := op.Op[:len(op.Op)-5]
+			if !c.Call("AdaptationField."+op.Op+"(get)", func() {
+				if which == "pcr" {
+					v, gerr = af.PCR()
+				} else {
+					v, gerr = af.OPCR()
+				}
+			}) {
+				return
+			}
+			if max := uint64(1)<<33*300 - 1; gerr == nil && v > max {
+				// leftover bytes with an extension of 300..511 on the largest base read as more
+				// than 33+9 bits can hold; writing that back is outside the statement
+				v, gerr = max, fmt.Errorf("not representable")
+			}
+			if gerr != nil {
+				if v != 0 {
+					c.Probe("timestamp_read_not_representable")
+				}
+			} else {
+				c.Probe("timestamp_written_back")
+				if (which == "pcr" && !m.pcrKnown) || (which == "opcr" && !m.opcrKnown) {
+					c.Probe("timestamp_written_back_over_leftover_bytes")
+				}
+			}
+			op = C03Op{Op: which, U: v}
+		}
 		before := pkt
 		next := m.AFSpec
 		honoured, absent, full := applyShadow(&next, op)
